@@ -241,7 +241,20 @@ F4m ==
      mem \in {<< M("way", 1, "outer") >>, << M("way", 1, "outer"), M("way", 2, "inner") >>,
               << M("way", 1, "outer"), M("way", 2, "outer") >>, << M("way", 2, "inner"), M("way", 1, "inner") >>}}
 
-Families == F3m \cup F4m \cup F1 \cup F2 \cup F3 \cup F4a \cup F4b \cup F5 \cup F6 \cup F7 \cup F8
+\* F9 - every key of the documented uninteresting list, as the only tag, wherever interest decides: a way-member
+\* node, a route member way, a multipolygon inner way, a multipolygon outer way; and next to an interesting tag
+F9 ==
+  UNION {{ DS("F9", << N(1, TRUE, << <<k, "x">> >>, M0), Plain(2), N(3, TRUE, << <<k, "x">>, <<"name", "n">> >>, M0) >>,
+              << W(1, <<1, 2, 3>>, FALSE, << <<k, "y">> >>, MVer) >>, << >>),
+           DS("F9", << N(1, TRUE, << <<k, "x">> >>, M0), Plain(2) >>,
+              << W(1, <<1, 2>>, FALSE, << <<k, "y">> >>, M0), W(2, <<2, 1>>, FALSE, << <<k, "y">>, <<"highway", "path">> >>, M0) >>,
+              << R(1, "route", << <<k, "z">> >>, << M("way", 1, ""), M("way", 2, "") >>, M0) >>),
+           DS("F9", << Plain(1), Plain(2), N(3, TRUE, << <<k, "x">> >>, MVer) >>,
+              << W(1, <<1, 2, 3, 1>>, FALSE, << <<k, "y">> >>, M0), W(2, <<1, 3, 2, 1>>, FALSE, << <<k, "y">> >>, M0) >>,
+              << R(1, "multipolygon", << <<"name", "r">> >>, << M("way", 1, "outer"), M("way", 2, "inner") >>, M0) >>) }
+         : k \in Unint}
+
+Families == F9 \cup F3m \cup F4m \cup F1 \cup F2 \cup F3 \cup F4a \cup F4b \cup F5 \cup F6 \cup F7 \cup F8
 
 \* the full product space, sampled
 MemberAll == [t : {"node"}, ref : {1, 2, 3, 9}, role : {"", "stop"}] \cup
